@@ -10,6 +10,8 @@ import ScrutModel.Model.Newline
 import ScrutModel.Model.Diff
 import ScrutModel.Model.ConfigRender
 import ScrutModel.Model.Exec
+import ScrutModel.Model.Cram
+import ScrutModel.Model.Divider
 /-!
 # `scrut test` on one Markdown document, end to end: the COMPOSITION of the piece models
 
@@ -73,6 +75,13 @@ that decoding (tied to `String::from_utf8_lossy` by the in-process stream `lossy
 there is one, resolves the escape sequences of the rest (`apply_escaped_filter_utf8` =
 `EscF.decode` then `String::from_utf8`).  `Model/Glob.lean` starts at the pattern handed to
 `WildMatch::new`; the step in front of it was a parameter (`Grammar.Params.make`) everywhere else.
+
+## Cram documents and `--cram-compat` (section 6)
+
+`testCramDocumentBytes` (`scrut test -r json doc.t`) and `testDocumentCompatBytes`
+(`scrut test --cram-compat -r json doc.md`) follow the other path of `FileParser::parser` and
+`make_executor`: see the header of section 6.  `testDocumentBytes` and everything it uses are unchanged
+(the rule type has one more constructor, which `compile` never builds).
 -/
 namespace Scrut.TestRun
 open Scrut
@@ -152,6 +161,8 @@ inductive Rule where
   | escaped (bytes : Bytes)
   /-- `GlobRule(WildMatch::new(pattern))` -/
   | glob (pattern : List Char)
+  /-- `CramGlobRule(pattern, glob_to_regex(pattern))`: the glob of `make_expectation_maker(true)` -/
+  | cramGlob (pattern : List Char)
   deriving DecidableEq, Repr
 
 structure CExp where
@@ -167,8 +178,13 @@ inductive CompileErr where
   | unsupported
   deriving DecidableEq, Repr
 
-/-- text of an expectation line → what `ExpectationMaker::parse` builds -/
-def compile (l : Line) : Except CompileErr CExp :=
+/-- text of an expectation line → what `ExpectationMaker::parse` builds.  `cram` = the maker of
+`make_expectation_maker(true)`: `CramGlobRule::make` is registered for `glob` / `gl`; its first
+step (`expression_as_escaped`, `apply_escaped_filter_utf8`) is that of `GlobRule::make`
+(`globMake`), the translation of the pattern into a regex (`glob_to_regex`, every piece is escaped
+or one of `.`, `.*`, `\*`, `\?`, `\\`) is taken not to fail, so both makers accept the same lines
+(`expOk`) -/
+def compileWith (cram : Bool) (l : Line) : Except CompileErr CExp :=
   match Grammar.parse grammarParams l with
   | .error _ => .error .parse
   | .ok x =>
@@ -184,7 +200,10 @@ def compile (l : Line) : Except CompileErr CExp :=
       | .ok (e, _, _) =>
         match globMake e with
         | none => .error .parse
-        | some p => .ok ⟨.glob p, x.optional, x.multiline⟩
+        | some p => .ok ⟨if cram then .cramGlob p else .glob p, x.optional, x.multiline⟩
+
+/-- the default maker (`make_expectation_maker(false)`) -/
+def compile (l : Line) : Except CompileErr CExp := compileWith false l
 
 /-! ### `String::from_utf8_lossy` (the decoding in front of `GlobRule::matches`)
 
@@ -264,6 +283,14 @@ def Rule.matches : Rule → Bytes → Option Bool
   -- `self.0.matches(&lossy_string!(line.trim_newlines()))`: trailing LFs are single bytes that decode
   -- to themselves and end every chunk, so trimming the decoded text is trimming the bytes
   | .glob p, line => (fromUtf8Lossy line).map (Glob.globRuleMatches p)
+  -- `self.1.is_match(line.trim_newlines())` with a Unicode `regex::bytes::Regex` `^…$`: every byte of
+  -- the line has to be consumed by a literal of the pattern (a `str`) or by `.`, which consumes one
+  -- encoded scalar value: a line that is not UTF-8 is matched by no pattern (`Model/Glob.lean`: "the
+  -- Cram regex cannot step over an invalid byte at all"); on a line that is, `Glob.cramRuleMatches`
+  | .cramGlob p, line =>
+    match Utf8.utf8Decode line with
+    | some cs => some (Glob.cramRuleMatches p cs)
+    | none => some false
 
 /-! ## 3. configuration of a test case -/
 
@@ -399,6 +426,9 @@ inductive Result where
   | unsupported
   /-- fewer runs given than the document has tests -/
   | missingRun
+  /-- exit status 1, nothing reported: the executor refused the document or could not assign the
+  outputs (single-script execution only, section 6) -/
+  | execError
   /-- the reported outcomes `(index of the test, verdict)` and the exit status of the process -/
   | report (outcomes : List Exec.Outcome) (exit : Nat)
   deriving DecidableEq, Repr
@@ -468,5 +498,270 @@ def testDocumentBytes (bytes : Bytes) (runs : List Ran) : Result :=
   | .error .crash => .crash
   | .error .notUtf8 => .parseError
   | .ok text => testDocument text runs
+
+/-! ## 6. Cram documents (`*.t`) and Markdown documents under `--cram-compat`
+
+Code path (`src/bin/commands/test.rs`, `src/bin/utils/file_parser.rs`, one document on the command line):
+
+1. `read_file` as before (`readFile`: CR LF → LF, then UTF-8).
+2. `FileParser::parser`:
+   * `*.t`: `CramParser::new(make_expectation_maker(true), 2)` (`Cram.parseCram … 2`); every test
+     carries `TestCaseConfig::default_cram()` (output_stream combined, keep_crlf true, skip code 80);
+   * `*.md` under `--cram-compat`: `MarkdownParser::new(make_expectation_maker(true), languages,
+     Some(default_cram()))` (`Markdown.parseMarkdown`; inline configuration
+     `.with_defaults_from(document defaults = empty).with_defaults_from(default_cram())`).
+   `make_expectation_maker(true)` registers `CramGlobRule::make` for `glob` / `gl` (`compileWith true`).
+   `--cram-compat` sets nothing in `to_testcase_config()` (no command-line override).
+3. `make_executor(shell, cram_compat)` = `BashScriptExecutor` for both (`cram_compat` is
+   `parser_type == Cram || --cram-compat`).  `execute_all`:
+   * `compile_testcase`: `set_consistent!` for detached, keep_crlf, output_stream,
+     skip_document_code, wait (`setConsistent`: the first set value is taken, every LATER test case has
+     to carry exactly it), then `compile_script`: a test case with a per-test timeout is an error.
+     Either error ends the run with exit status 1 (`Result.execError`).  `strip_ansi_escaping` is NOT
+     carried into the compiled configuration: an inline `strip_ansi_escaping: true` has no effect.
+   * the ONE script (`Divider.compileScript`: per test the expression, an empty line,
+     `echo "<divider>"`, and `1>&2 echo "<divider>"` unless combined) is run by
+     `SubprocessRunner::run` with the compiled configuration: `render_output` (`Crlf.renderOutput`)
+     is applied to the WHOLE captured stream.
+     What the shell writes is derived from the given runs (`scriptStream`): for test `i` the bytes its
+     command wrote, then the divider line with `$?` (`Divider.chunk`) -- unless the command LEAVES
+     the shell (`exit N`): the stream ends behind its bytes and `N` is the script's exit status
+     (`scriptExit`; otherwise it is that of the last `echo`, 0).  Under `combined` (stderr merged
+     into the stdout pipe) a command's bytes are its stdout bytes followed by its stderr bytes
+     (assumption on the command, as in section 4).  On stderr the divider carries `0`: `$?` of
+     `1>&2 echo` is the status of the `echo` before it (the code ignores the value).
+     The random salt is replaced by the fixed `modelSalt`; outputs that contain
+     `~~~~~~~~EXECDIVIDER::<modelSalt>::` are outside the composition (`unsupported`): the assumption
+     is that the random salt of a run does not occur in the outputs of that run.  Exit codes outside
+     0..255 (not what `$?` shows) are `unsupported` too.
+   * script status = skip code → `Skipped(0)`; then stdout is cut at the divider lines
+     (`Divider.iterate`); a parsed output with the skip code → `Skipped(i)`; count check: these
+     decisions are `Exec.execScript` (called on the statuses; the bytes are attached afterwards on
+     its `ok` path only, as in the code: stderr is only cut once the count check has passed).
+   No per-test timeouts; the script's own limit (`total_timeout`) is not modelled (completed commands).
+4. `TestCase::validate` per ORIGINAL test case on its output (`Exec.validate` through
+   `Exec.runDocument`), exit status `Exec.exitStatus`.
+-/
+
+/-- `TestCaseConfig::default_cram()` -/
+def cramDefaults : Yaml.Cfg :=
+  { outputStream := some .combined, keepCrlf := some true, skipCode := some 80 }
+
+/-- `.with_defaults_from(TestCaseConfig::default_cram())` -/
+def withCramDefaults (c : Yaml.Cfg) : Yaml.Cfg :=
+  { c with
+    outputStream := c.outputStream.or cramDefaults.outputStream
+    keepCrlf := c.keepCrlf.or cramDefaults.keepCrlf
+    skipCode := c.skipCode.or cramDefaults.skipCode }
+
+def ofCramStream : Cram.Stream → Yaml.Stream
+  | .stdout => .stdout
+  | .stderr => .stderr
+  | .combined => .combined
+
+/-- the configuration the Cram parser model attaches to a test, as `Yaml.Cfg`; `none` = `wait` is
+set (the Cram parser never sets it) -/
+def ofCramCfg (c : Cram.TCConfig) : Option Yaml.Cfg :=
+  if c.waitSet then none else
+  some
+    { outputStream := c.outputStream.map ofCramStream
+      keepCrlf := c.keepCrlf
+      timeout := c.timeoutSecs.map (fun s => (s, 0))
+      detached := c.detached
+      skipCode := c.skipDocumentCode
+      stripAnsi := c.stripAnsiEscaping
+      env := c.environment }
+
+/-- expectations and exit code of a parsed test under the configuration `c`, with the Cram maker -/
+def prepareCompatWith (c : Yaml.Cfg) (expectations : List Line) (exitCode : Option Nat) :
+    Except StepErr Test :=
+  if !cfgSupported c then .error .unsupported else
+  match expectations.mapM (compileWith true) with
+  | .error .unsupported => .error .unsupported
+  -- the parser accepted the line with the same `Grammar.parse`
+  | .error .parse => .error .crash
+  | .ok exps => .ok ⟨c, exps, exitCode.map Int.ofNat⟩
+
+/-- a test of a Cram document → `Test` -/
+def prepareCram (t : Cram.Test) : Except StepErr Test :=
+  match t.config with
+  -- `LineParser`: `config.unwrap_or_default()` (the Cram parser always sets one)
+  | none => prepareCompatWith {} t.expectations t.exitCode
+  | some c =>
+    match ofCramCfg c with
+    | none => .error .unsupported
+    | some c => prepareCompatWith c t.expectations t.exitCode
+
+/-- a test of a Markdown document read under `--cram-compat` → `Test` -/
+def prepareCompat (t : LineParser.TestCase Markdown.Cfg) : Except StepErr Test :=
+  match inlineCfg t.config with
+  | none => .error .unsupported
+  | some c =>
+    prepareCompatWith (if t.config.isSome then withCramDefaults c else c) t.expectations t.exitCode
+
+/-- a completed run of a test's command INSIDE the one script -/
+structure SRan where
+  ran : Ran
+  /-- the command ends with `exit N` instead of `(exit N)`: the script ends here -/
+  leaves : Bool
+  deriving DecidableEq, Repr
+
+/-- stands for the 20 random alphanumeric characters of `random_string` -/
+def modelSalt : Bytes := List.replicate 20 83
+
+/-- `set_consistent!($attrib)` over the test cases in order, `cur` = `config.$attrib` so far;
+`none` = "inconsistent configuration value" -/
+def setConsistent {α : Type} [DecidableEq α] : Option α → List (Option α) → Option (Option α)
+  | cur, [] => some cur
+  | none, v :: vs => setConsistent v vs
+  | some c, v :: vs => if v = some c then setConsistent (some c) vs else none
+
+/-- the fields of the configuration `compile_testcase` builds that the composition uses -/
+structure Compiled where
+  keepCrlf : Option Bool
+  outputStream : Option Yaml.Stream
+  skipCode : Option Int
+  deriving DecidableEq, Repr
+
+/-- `compile_testcase` (+ the timeout check of `compile_script`); `none` = `ExecutionError::failed`.
+`wait` and `environment` are the same on every supported test case (`cfgSupported`; the variables
+of `with_environment` are those of the document). -/
+def compileTestcase (tests : List Test) : Option Compiled :=
+  match setConsistent none (tests.map (·.cfg.detached)), setConsistent none (tests.map (·.cfg.keepCrlf)),
+        setConsistent none (tests.map (·.cfg.outputStream)), setConsistent none (tests.map (·.cfg.skipCode)) with
+  | some _, some k, some o, some s =>
+    -- "timeout per execution not supported in bash-script execution"
+    if tests.any (·.cfg.timeout.isSome) then none else some ⟨k, o, s⟩
+  | _, _, _, _ => none
+
+/-- what the script writes to one stream: per test case the bytes of its command and the divider
+line (`code` = what `$?` expands to there), up to a command that leaves the shell -/
+def scriptStream (pay : SRan → Bytes) (code : SRan → Nat) : Nat → List SRan → Bytes
+  | _, [] => []
+  | i, r :: rs =>
+    if r.leaves then pay r
+    else Divider.chunk modelSalt i (pay r) (code r) ++ scriptStream pay code (i + 1) rs
+
+/-- exit status of the script: that of the command that left the shell, else that of the last `echo` -/
+def scriptExit : List SRan → Int
+  | [] => 0
+  | r :: rs => if r.leaves then r.ran.code else scriptExit rs
+
+/-- exit codes as bash shows them in `$?` -/
+def codeOk (r : SRan) : Bool := decide (0 ≤ r.ran.code ∧ r.ran.code ≤ 255)
+
+def saltFree (r : SRan) : Bool :=
+  Divider.noSalted modelSalt r.ran.stdout && Divider.noSalted modelSalt r.ran.stderr &&
+    Divider.noSalted modelSalt (r.ran.stdout ++ r.ran.stderr)
+
+inductive ScriptErr where
+  /-- an `ExecutionError` other than skipped / timeout: `bail!("failing in …")`, exit status 1 -/
+  | exec
+  | crash
+  | unsupported
+  deriving DecidableEq, Repr
+
+/-- the output `o` of test `t` as `Exec` sees it: is it accepted on stdout / on stderr -/
+def scriptOut (t : Test) (o : Divider.Out) : Option Exec.Out :=
+  match accepts t.exps o.stdout, accepts t.exps o.stderr with
+  | some ao, some ae => some ⟨.code o.code, ao, ae⟩
+  | _, _ => none
+
+def zipScriptOuts : List Test → List Divider.Out → Option (List Exec.Out)
+  | t :: ts, o :: os =>
+    match scriptOut t o, zipScriptOuts ts os with
+    | some x, some xs => some (x :: xs)
+    | _, _ => none
+  | _, _ => some []
+
+/-- `BashScriptExecutor::execute_all` on the test cases of one document, given how their commands run -/
+def execScriptBytes (tests : List Test) (tcs : List Exec.TC) (runs : List SRan) :
+    Except ScriptErr Exec.ExecResult :=
+  match compileTestcase tests with
+  | none => .error .exec
+  | some cfg =>
+    let combined : Bool := cfg.outputStream = some .combined
+    -- `testcase.config.get_skip_document_code()` of the compiled test case
+    let tcs := tcs.map (fun tc => { tc with skipCode := cfg.skipCode })
+    -- what the shell writes
+    let rawOut :=
+      if combined then scriptStream (fun r => r.ran.stdout ++ r.ran.stderr) (fun r => r.ran.code.toNat) 0 runs
+      else scriptStream (fun r => r.ran.stdout) (fun r => r.ran.code.toNat) 0 runs
+    let rawErr := if combined then [] else scriptStream (fun r => r.ran.stderr) (fun _ => 0) 0 runs
+    let script := Exec.Status.code (scriptExit runs)
+    -- `SubprocessRunner::run`: `render_output` of the compiled test case (no `strip_ansi_escaping`)
+    match Crlf.renderOutput cfg.keepCrlf none (fun b => some b) rawOut,
+          Crlf.renderOutput cfg.keepCrlf none (fun b => some b) rawErr with
+    | some stdout, some stderr =>
+      match Divider.iterate modelSalt none stdout with
+      | .error _ =>
+        -- the script status is looked at before the stream is cut
+        if scriptExit runs = Exec.scriptSkip tcs then .ok (.skipped 0) else .error .exec
+      | .ok outs =>
+        match Exec.execScript tcs script (outs.map (fun oc => ⟨.code oc.2, false, false⟩)) with
+        | none => .error .exec
+        | some (.ok _) =>
+          -- one output per test case: now stderr is cut (unless combined) and the bytes are judged
+          match (if combined then .ok [] else Divider.iterate modelSalt (some outs.length) stderr) with
+          | .error .crash => .error .crash
+          | .error _ => .error .exec
+          | .ok errs =>
+            match zipScriptOuts tests (Divider.zipErr outs errs) with
+            | some xs => .ok (.ok xs)
+            | none => .error .unsupported
+        | some r => .ok r
+    | _, _ => .error .crash
+
+/-- `scrut test` on the parsed tests of a document that is run by the single-script executor -/
+def runScript (tests : List Test) (runs : List SRan) : Result :=
+  if runs.length < tests.length then .missingRun else
+  let runs := runs.take tests.length
+  if !(runs.all codeOk && runs.all saltFree) then .unsupported else
+  match tests.mapM (fun t => (accepts t.exps []).map t.tc) with
+  | none => .unsupported
+  | some tcs =>
+    match execScriptBytes tests tcs runs with
+    | .error .exec => .execError
+    | .error .crash => .crash
+    | .error .unsupported => .unsupported
+    | .ok r =>
+      let outcomes := Exec.runDocument tcs r
+      .report outcomes (Exec.exitStatus [some outcomes])
+
+/-- `scrut test -r json <doc.t>` given the text of the document (after `read_file`) -/
+def testCramDocument (text : List Char) (runs : List SRan) : Result :=
+  match Cram.parseCram expOk 2 text with
+  | .error _ => .parseError
+  | .ok (_, ts) =>
+    match ts.mapM prepareCram with
+    | .error .crash => .crash
+    | .error .unsupported => .unsupported
+    | .ok tests => runScript tests runs
+
+/-- `scrut test -r json <doc.t>` from the bytes of the file -/
+def testCramDocumentBytes (bytes : Bytes) (runs : List SRan) : Result :=
+  match readFile bytes with
+  | .error .crash => .crash
+  | .error .notUtf8 => .parseError
+  | .ok text => testCramDocument text runs
+
+/-- `scrut test --cram-compat -r json <doc.md>` given the text of the document -/
+def testDocumentCompat (text : List Char) (runs : List SRan) : Result :=
+  match Markdown.parseMarkdown parseEnv text with
+  | .error .crash => .crash
+  | .error _ => .parseError
+  | .ok p =>
+    if !p.docConfigs.all frontMatterHarmless then .unsupported else
+    match p.tests.mapM prepareCompat with
+    | .error .crash => .crash
+    | .error .unsupported => .unsupported
+    | .ok tests => runScript tests runs
+
+/-- `scrut test --cram-compat -r json <doc.md>` from the bytes of the file -/
+def testDocumentCompatBytes (bytes : Bytes) (runs : List SRan) : Result :=
+  match readFile bytes with
+  | .error .crash => .crash
+  | .error .notUtf8 => .parseError
+  | .ok text => testDocumentCompat text runs
 
 end Scrut.TestRun
